@@ -20,6 +20,9 @@ func checkC09(c *Ctx, r *Report) {
 	r.floor("R9.3", 20)
 	r.floor("R9.4", 20)
 	crc := c.fnMust("packet", "CRC16")
+	// R9.6: encoding and parsing a request depend on the request / frame alone
+	sharedStateRule(c, r, "R9.6", "packet request parsers", "request encoding and parsing", append(codecRoots(c, "packet", true), crc))
+	r.floor("R9.6", 40)
 	for _, pi := range packetParsers(c, "packet", true) {
 		c09Limits(c, r, pi, false)
 		c09RoundTrip(c, r, pi, crc, "packet", false)
